@@ -67,8 +67,14 @@ def run(ck):
     so_cases, cert_circs = [], []
     for i in range(ck.scale(90, 2500)):
         c, caps, cmin, reuse, strip = gen_map_case(rng)
-        so, d = sc.run_impl(c, caps, cmin, reuse, strip)
-        desc = {'circuit': cg.describe(c), 'c_caps': caps, 'c_caps_min': cmin, 'c_reuse': reuse, 'strip_forks': strip}
+        # a third of the capacity VECTORS is handed over as a numpy array of a narrow integer dtype (with capacities around 100 the
+        # total size exceeds the dtype's range: the memory locations must not wrap around)
+        dt = rng.choice([None, None, None, 'uint8', 'int8', 'int16']) if not isinstance(caps, int) else None
+        if dt is not None:
+            caps = [rng.choice([4, 8, 100, 120]) for _ in caps]
+            ck.count(1, 'capacity vector as ' + dt)
+        so, d = sc.run_impl(c, caps, cmin, reuse, strip, caps_dtype=dt)
+        desc = {'circuit': cg.describe(c), 'c_caps': caps, 'c_caps_min': cmin, 'c_reuse': reuse, 'strip_forks': strip, 'c_caps_dtype': dt}
         ck.count(1, f'map:reuse={reuse},strip={strip}')
         ck.nontrivial(('m', len(c.nodes), len(c.lines), reuse, strip, str(caps)[:12]))
         if d is None:
@@ -113,5 +119,5 @@ def replay(rp):
         steps, fail = hc.run_history([tuple(x) for x in inp['ops']])
         return fail is not None
     c = cg.from_description(inp['circuit'])
-    so, d = sc.run_impl(c, inp['c_caps'], inp['c_caps_min'], inp['c_reuse'], inp['strip_forks'])
+    so, d = sc.run_impl(c, inp['c_caps'], inp['c_caps_min'], inp['c_reuse'], inp['strip_forks'], caps_dtype=inp.get('c_caps_dtype'))
     return d is None or mo.check_map(so, c, inp['strip_forks']) is not None
